@@ -523,6 +523,9 @@ async fn handle(env: Rc<Env>, programs: Rc<Vec<HandlerProgram>>, mut req: Reques
     if prog.force_close {
         rb.force_close();
     }
+    if let Some(n) = prog.no_chunking {
+        rb.no_chunking(n);
+    }
     for (hk, hv) in &prog.headers {
         rb.append_header((hk.as_str(), hv.as_str()));
     }
@@ -583,6 +586,35 @@ pub struct Peaks {
     pub read_ahead_at: (usize, usize, usize),
     /// max of (response body bytes pulled from bodies) - (bytes accepted by the socket)
     pub write_behind: usize,
+    /// largest number of bytes taken from the socket within one poll of the connection
+    pub intake_per_poll: usize,
+}
+
+/// C05 gauges: what the connection holds in memory, seen from outside
+fn update_gauges(sc: &Scenario, env: &Env, io: &Rc<RefCell<IoState>>, stream: &crate::scenario::Stream, wire_maps: &[Vec<(usize, usize)>], peaks: &mut Peaks) {
+    if !sc.env.gauges {
+        return;
+    }
+    let consumed = io.borrow().rpos;
+    let out_len = io.borrow().out.len();
+    let dispatched = *env.dispatched.borrow();
+    let br = env.body_read.borrow();
+    // stream offset up to which everything was handed to the application
+    let mut delivered = 0usize;
+    for i in 0..dispatched.min(wire_maps.len()) {
+        let (read, ended) = br.get(i).copied().unwrap_or((0, false));
+        let (_, head_end, end) = stream.spans[i];
+        delivered = if ended && read >= wire_maps[i].last().map(|x| x.0).unwrap_or(0) { end } else { head_end + wire_of(&wire_maps[i], read) };
+    }
+    let ra = consumed.saturating_sub(delivered);
+    if ra > peaks.read_ahead {
+        peaks.read_ahead = ra;
+        peaks.read_ahead_at = (consumed, delivered, dispatched);
+    }
+    let wb = env.pulled.borrow().saturating_sub(out_len);
+    if wb > peaks.write_behind {
+        peaks.write_behind = wb;
+    }
 }
 
 /// (body offset, wire offset relative to head end) at chunk boundaries of one request
@@ -744,6 +776,7 @@ async fn drive(sc: &Scenario, chooser: Rc<RefCell<Chooser>>) -> Exec {
     let mut signal_fired: Option<(u64, usize)> = None;
     let mut peaks = Peaks::default();
     let mut horizon_hit = false;
+    let mut spurious_done = 0u32;
     let reorder = sc.env.reorder;
 
     loop {
@@ -876,6 +909,19 @@ async fn drive(sc: &Scenario, chooser: Rc<RefCell<Chooser>>) -> Exec {
                     continue;
                 }
             }
+            if spurious_done < sc.env.spurious_polls && done.is_none() {
+                spurious_done += 1;
+                let rpos_before = io.borrow().rpos;
+                let mut cx = Context::from_waker(&waker);
+                if let Poll::Ready(res) = conn.as_mut().poll(&mut cx) {
+                    done = Some(res.map_err(|e| e.to_string()));
+                    done_at = Some(now_ms);
+                    env.push(Event::ConnDone { ok: matches!(done, Some(Ok(()))), err: done.clone().unwrap().err().unwrap_or_default(), now_ms });
+                }
+                peaks.intake_per_poll = peaks.intake_per_poll.max(io.borrow().rpos - rpos_before);
+                update_gauges(sc, &env, &io, &stream, &wire_maps, &mut peaks);
+                continue;
+            }
             let mut q: Option<Ev> = None;
             if next_seg < segments.len() && segments[next_seg].when == When::Quiescent {
                 q = Some(Ev::Arrive(next_seg));
@@ -910,6 +956,7 @@ async fn drive(sc: &Scenario, chooser: Rc<RefCell<Chooser>>) -> Exec {
             Ev::Poll => {
                 first_poll = false;
                 wk.take();
+                let rpos_before = io.borrow().rpos;
                 let before = progress_tuple(&env, false);
                 let mut cx = Context::from_waker(&waker);
                 let r = conn.as_mut().poll(&mut cx);
@@ -923,6 +970,7 @@ async fn drive(sc: &Scenario, chooser: Rc<RefCell<Chooser>>) -> Exec {
                     });
                 }
                 let after = progress_tuple(&env, done.is_some());
+                peaks.intake_per_poll = peaks.intake_per_poll.max(io.borrow().rpos - rpos_before);
                 if before == after {
                     noprogress_polls += 1;
                     spin_polls += 1;
@@ -999,33 +1047,7 @@ async fn drive(sc: &Scenario, chooser: Rc<RefCell<Chooser>>) -> Exec {
                 now_ms += GRID_MS;
             }
         }
-        // C05 gauges: what the connection holds in memory, seen from outside
-        if sc.env.gauges {
-            let consumed = io.borrow().rpos;
-            let out_len = io.borrow().out.len();
-            let dispatched = *env.dispatched.borrow();
-            let br = env.body_read.borrow();
-            // stream offset up to which everything was handed to the application
-            let mut delivered = 0usize;
-            for i in 0..dispatched.min(wire_maps.len()) {
-                let (read, ended) = br.get(i).copied().unwrap_or((0, false));
-                let (_, head_end, end) = stream.spans[i];
-                delivered = if ended && read >= wire_maps[i].last().map(|x| x.0).unwrap_or(0) {
-                    end
-                } else {
-                    head_end + wire_of(&wire_maps[i], read)
-                };
-            }
-            let ra = consumed.saturating_sub(delivered);
-            if ra > peaks.read_ahead {
-                peaks.read_ahead = ra;
-                peaks.read_ahead_at = (consumed, delivered, dispatched);
-            }
-            let wb = env.pulled.borrow().saturating_sub(out_len);
-            if wb > peaks.write_behind {
-                peaks.write_behind = wb;
-            }
-        }
+        update_gauges(sc, &env, &io, &stream, &wire_maps, &mut peaks);
     }
 
     let snap = {
